@@ -1093,6 +1093,7 @@ func runC14(c *Ctx) error {
 		c14EntryPoints(c, caseNo, big, "gencircuit-large")
 	}
 	c14EntryFiles(c, validB[0])
+	c14FrontDoors(c, validM, validB, offer) // IsFilename / Parse(file) / Stats as correspondence cases (c14front.go)
 	caseNo++
 	c14EntryCompile(c, caseNo)
 	nBig := c.N(6, 60)
